@@ -538,12 +538,38 @@ impl Session {
                 } else {
                     "1".to_string()
                 };
+                // test hook for the teeth of this comparison (never set by ./check): plant a leak
+                if let Ok(kind) = std::env::var("VERIF_C31_INJECT") {
+                    inject_leak(&mut evm, &kind);
+                }
                 self.fresh_db = Some(fdb);
                 self.evm = Some(evm);
                 format!("{label} {summary} mid={mid} same={same} insp={insp}")
             }
             _ => "bad-op".into(),
         }
+    }
+}
+
+fn inject_leak(evm: &mut E, kind: &str) {
+    let a = |x: u64| Address::from_slice(&U256::from(x).to_be_bytes::<32>()[12..]);
+    let j = &mut evm.context.evm.inner.journaled_state;
+    match kind {
+        "transient" => {
+            for k in [0xd1u64, 0xd2, 0xd3, 0xd4] {
+                j.transient_storage.insert((a(k), U256::ZERO), U256::from(5));
+                j.transient_storage.insert((a(k), U256::from(1)), U256::from(5));
+            }
+        }
+        "warm" => {
+            for k in [0xd1u64, 0xd2, 0xd3, 0xd4, 0xe1] {
+                j.warm_preloaded_addresses.insert(a(k));
+            }
+        }
+        "logs" => j.logs.push(revm::primitives::Log::default()),
+        "error" => evm.context.evm.inner.error = Err(EVMError::Custom("leak".into())),
+        "depth" => j.depth = 3,
+        _ => {}
     }
 }
 
@@ -814,9 +840,11 @@ fn gen_case(rng: &mut Rng, len: usize) -> Vec<String> {
     // the labels are observed: the generator runs the history while it writes it
     let t: Vec<&str> = begin.split(' ').collect();
     let mut sess = parse_begin(&t[2..]).expect("generated begin line parses");
+    let mut cur = spec;
     for _ in 0..len {
         if rng.chance(1, 6) {
             let s = pick_spec(rng);
+            cur = s;
             let how = *rng.pick(&["modify", "rebuild"]);
             let l = format!("lc spec {s} {how}");
             let t: Vec<&str> = l.split(' ').collect();
@@ -853,7 +881,10 @@ fn gen_case(rng: &mut Rng, len: usize) -> Vec<String> {
         } else {
             "-".into()
         };
-        let al = if rng.chance(1, 3) {
+        // mostly only where the fork knows the list (otherwise the call ends in validation.env)
+        let al_ok = cur >= SpecId::BERLIN as u8 || rng.chance(1, 8);
+        let auth_ok = cur >= SpecId::PRAGUE as u8 || rng.chance(1, 8);
+        let al = if al_ok && rng.chance(1, 3) {
             let mut items = vec![];
             for _ in 0..rng.range(1, 3) {
                 let a = match rng.below(16) { 0 => F_ACL, 1 => EOA, 2 => 0xb1, _ => *rng.pick(&KS) };
@@ -866,7 +897,7 @@ fn gen_case(rng: &mut Rng, len: usize) -> Vec<String> {
         } else {
             "-".into()
         };
-        let auth = if to != "create" && rng.chance(1, 8) {
+        let auth = if auth_ok && to != "create" && rng.chance(1, 6) {
             let mut items = vec![];
             for _ in 0..rng.range(1, 2) {
                 let a = match rng.below(6) { 0 => F_AUTH, 1 | 2 => CALLERS[1], _ => EOA };
@@ -877,21 +908,136 @@ fn gen_case(rng: &mut Rng, len: usize) -> Vec<String> {
             "-".into()
         };
         let tail = format!("cb={cb:x} from={from:x} to={to} val={val:x} gl={gl} gp={gp:x} tip={tip} nonce={nonce} data={data} al={al} auth={auth}");
-        let probe_line = format!("call {entry} ? {tail}");
-        let t: Vec<&str> = probe_line.split(' ').collect();
-        let sp = std::panic::AssertUnwindSafe(&mut sess);
-        let reply = match std::panic::catch_unwind(move || {
-            let sp = sp;
-            sp.0.exec(&t)
-        }) {
-            Ok(r) => r,
-            Err(_) => {
-                lines.push(format!("lc call {entry} panic {tail}"));
-                break;
-            }
-        };
-        let label = reply.split(' ').next().unwrap_or("?").to_string();
-        lines.push(format!("lc call {entry} {label} {tail}"));
+        if !emit_call(&mut sess, &mut lines, entry, &tail) {
+            break;
+        }
+    }
+    lines
+}
+
+/// runs one call on the session to observe where it ends, then writes the line with that label
+fn emit_call(sess: &mut Session, lines: &mut Vec<String>, entry: &str, tail: &str) -> bool {
+    let probe_line = format!("call {entry} ? {tail}");
+    let t: Vec<&str> = probe_line.split(' ').collect();
+    let sp = std::panic::AssertUnwindSafe(&mut *sess);
+    match std::panic::catch_unwind(move || {
+        let sp = sp;
+        sp.0.exec(&t)
+    }) {
+        Ok(r) => {
+            let label = r.split(' ').next().unwrap_or("?").to_string();
+            lines.push(format!("lc call {entry} {label} {tail}"));
+            true
+        }
+        Err(_) => {
+            lines.push(format!("lc call {entry} panic {tail}"));
+            false
+        }
+    }
+}
+
+/// Directed history: every way a call can end (each entry point; success, revert, halt; failure in
+/// validation.env / initial_tx_gas / tx_against_state; database errors in tx_against_state,
+/// load_accounts (address and slot), deduct_caller, the 7702 list, first-frame creation, inside the loop
+/// through the error slot (BALANCE, SLOAD) and through `?` (nested CALL), reward_beneficiary; spec
+/// changes), each followed by a DETECTOR transaction whose result depends on anything that leaked:
+/// TLOAD -> storage, cold/warm SLOAD + BALANCE + CALL (gas recorded into storage), LOG1, TSTORE.
+fn gen_directed(spec: u8, variant: &str, probe: bool) -> Vec<String> {
+    let cancun = spec >= SpecId::CANCUN as u8;
+    let mut det: Vec<u8> = vec![];
+    if cancun {
+        det.extend([0x60, 0x00, 0x5c, 0x60, 0x04, 0x55]);
+    }
+    det.extend([0x60, 0x01, 0x54, 0x50]);
+    det.extend([0x60, 0xd2, 0x31, 0x50]);
+    det.extend([0x60, 0x00, 0x60, 0x00, 0x60, 0x00, 0x60, 0x00, 0x60, 0x00, 0x60, 0xd2, 0x61, 0x75, 0x30, 0xf1, 0x50]);
+    det.extend([0x5a, 0x60, 0x09, 0x55]);
+    det.extend([0x60, 0xaa, 0x60, 0x00, 0x60, 0x00, 0xa1]);
+    if cancun {
+        det.extend([0x60, 0x07, 0x60, 0x00, 0x5d]);
+    }
+    det.push(0x00);
+    let mut pre: Vec<u8> = vec![];
+    if cancun {
+        pre.extend([0x60, 0x09, 0x60, 0x00, 0x5d]);
+    }
+    pre.extend([0x60, 0x05, 0x60, 0x01, 0x55]);
+    pre.extend([0x60, 0x00, 0x60, 0x00, 0xa0]);
+    pre.extend([0x60, 0xd2, 0x31, 0x50]);
+    pre.extend([0x60, 0x00, 0x60, 0x00, 0x60, 0x00, 0x60, 0x00, 0x60, 0x00, 0x60, 0xd2, 0x61, 0x75, 0x30, 0xf1, 0x50]);
+    let with = |tail: &[u8]| -> String {
+        let mut c = pre.clone();
+        c.extend(tail);
+        hxb(&c)
+    };
+    let callee = hxb(&[0x60, 0x01, 0x60, 0x00, 0x55, 0x00]);
+    let mut begin = format!("begin lc {variant} {} {spec}", b01(probe));
+    begin += &format!(" acct=c1:{:x}:0:-:- acct=c2:{:x}:0:-:- acct=c3:3e8:0:-:- acct=e1:5:1:-:-", U256::from(10).pow(U256::from(24)), U256::from(10).pow(U256::from(24)));
+    begin += &format!(" acct=d1:0:1:{}:1=3", hxb(&det));
+    begin += &format!(" acct=d2:0:1:{callee}:-");
+    begin += &format!(" acct=d3:0:1:{}:1=2", with(&[0x00]));
+    begin += &format!(" acct=d4:0:1:{}:1=2", with(&[0x60, 0x00, 0x60, 0x00, 0xfd]));
+    begin += &format!(" acct=d5:0:1:{}:1=2", with(&[0xfe]));
+    begin += &format!(" acct=d6:0:1:{}:1=2", with(&[0x60, 0xf5, 0x31, 0x50, 0x00]));
+    begin += &format!(" acct=d7:0:1:{}:1=2", with(&[0x60, 0x00, 0x60, 0x00, 0x60, 0x00, 0x60, 0x00, 0x60, 0x00, 0x60, 0xf6, 0x61, 0x75, 0x30, 0xf1, 0x50, 0x00]));
+    begin += &format!(" acct=d8:0:1:{}:1=2", with(&[0x60, 0x77, 0x54, 0x50, 0x00]));
+    begin += " acct=b1:5:0:-:- fb=f1,f2,f3,f4,f5,f6,f7 fs=d8.77,d3.78";
+    let mut lines = vec![begin.clone()];
+    let t: Vec<&str> = begin.split(' ').collect();
+    let mut sess = parse_begin(&t[2..]).expect("directed begin line parses");
+    let tail = |cb: &str, from: &str, to: &str, gl: u64, data: &str, al: &str, auth: &str| {
+        format!("cb={cb} from={from} to={to} val=0 gl={gl} gp=3e8 tip=- nonce=- data={data} al={al} auth={auth}")
+    };
+    let detector = tail("b1", "c2", "d1", 300_000, "-", "-", "-");
+    let disturbers: Vec<(&str, String)> = vec![
+        ("commit", tail("b1", "c1", "d3", 300_000, "-", "-", "-")),
+        ("transact", tail("b1", "c1", "d3", 300_000, "-", "-", "-")),
+        ("commit", tail("b1", "c1", "d4", 300_000, "-", "-", "-")),
+        ("transact", tail("b1", "c1", "d5", 300_000, "-", "-", "-")),
+        ("commit", tail("b1", "c1", "d5", 300_000, "-", "-", "-")),
+        ("transact", tail("b1", "c1", "d3", 31_000_000, "-", "-", "-")),
+        ("commit", tail("b1", "c1", "d3", 20_000, "-", "-", "-")),
+        ("transact", tail("b1", "c3", "d3", 300_000, "-", "-", "-")),
+        ("transact", tail("b1", "f1", "d3", 300_000, "-", "-", "-")),
+        ("preverify", tail("b1", "c1", "d3", 300_000, "-", "-", "-")),
+        ("preverify", tail("b1", "c3", "d3", 300_000, "-", "-", "-")),
+        ("preverify", tail("b1", "f1", "d3", 300_000, "-", "-", "-")),
+        ("preverified", tail("b1", "c1", "d3", 300_000, "-", "-", "-")),
+        ("preverified", tail("b1", "c3", "d4", 300_000, "-", "-", "-")),
+        ("preverified", tail("b1", "f1", "d3", 300_000, "-", "-", "-")),
+        ("commit", tail("b1", "c1", "d3", 300_000, "-", "d1:1;d2:;f2:", "-")),
+        ("commit", tail("b1", "c1", "d3", 300_000, "-", "d1:1;d3:78", "-")),
+        ("commit", tail("b1", "c1", "d3", 300_000, "-", "d1:1+0;d2:", "-")),
+        ("commit", tail("b1", "c1", "d3", 400_000, "-", "-", "e1>d2>1,f3>d2>0")),
+        ("commit", tail("b1", "c1", "f4", 300_000, "-", "-", "-")),
+        ("transact", tail("b1", "c1", "d6", 300_000, "-", "-", "-")),
+        ("commit", tail("b1", "c1", "d8", 300_000, "-", "-", "-")),
+        ("commit", tail("b1", "c1", "d7", 300_000, "-", "-", "-")),
+        ("commit", tail("f7", "c1", "d3", 300_000, "-", "-", "-")),
+        ("commit", tail("b1", "c1", "create", 300_000, "6001600055", "-", "-")),
+        ("commit", tail("b1", "c1", "9", 300_000, "-", "-", "-")),
+    ];
+    for (entry, d) in &disturbers {
+        if !emit_call(&mut sess, &mut lines, entry, d) {
+            return lines;
+        }
+        if !emit_call(&mut sess, &mut lines, "commit", &detector) {
+            return lines;
+        }
+    }
+    // spec changes: handler only, then through the builder, with the detector in between
+    let other = if cancun { SpecId::LONDON as u8 } else { SpecId::CANCUN as u8 };
+    for (s, how) in [(other, "modify"), (spec, "modify"), (SpecId::CONSTANTINOPLE as u8, "rebuild"), (spec, "rebuild")] {
+        let l = format!("lc spec {s} {how}");
+        let t: Vec<&str> = l.split(' ').collect();
+        sess.exec(&t[1..]);
+        lines.push(l);
+        if !emit_call(&mut sess, &mut lines, "preverify", &detector) {
+            return lines;
+        }
+        if !emit_call(&mut sess, &mut lines, "commit", &detector) {
+            return lines;
+        }
     }
     lines
 }
@@ -899,6 +1045,14 @@ fn gen_case(rng: &mut Rng, len: usize) -> Vec<String> {
 pub fn gen(seed: u64, n: usize) -> Vec<String> {
     let mut rng = Rng::new(seed ^ 0xC31);
     let mut v = vec![];
+    // directed histories, rotating over (spec, variant) with the seed
+    let specs = all_specs();
+    let variants = ["rec", "plain", "noop"];
+    let nd = if n == 0 { 0 } else { (n / 10).clamp(6, specs.len() * variants.len()) };
+    for i in 0..nd {
+        let j = (seed as usize).wrapping_mul(7).wrapping_add(i) % (specs.len() * variants.len());
+        v.extend(gen_directed(specs[j % specs.len()], variants[(j / specs.len()) % 3], (j + i) % 3 != 0));
+    }
     for _ in 0..n {
         let len = rng.range(4, 14) as usize;
         v.extend(gen_case(&mut rng, len));
